@@ -207,6 +207,7 @@ def write_replay(mod, plan, meta, known, cap_s=60.0):
     doc = {'schema': 1, 'property': mod.PROPERTY, 'check': v['check'], 'signature': v['signature'],
            'plan': plan, 'served': out.get('events', []), 'violation': v, 'digest': out['digest']}
     doc.update(meta)
+    doc['hashseed'] = int(os.environ.get('PYTHONHASHSEED', '0') or 0) if (os.environ.get('PYTHONHASHSEED', '0') or '0').isdigit() else 0
     os.makedirs(os.path.join(VERIF, 'replays'), exist_ok=True)
     path = os.path.join(VERIF, 'replays', f"{mod.PROPERTY}-{plan.get('run_seed', 0)}.json")
     with open(path, 'w') as f:
